@@ -185,6 +185,7 @@ type gcBuilder struct {
 	cuts     []cutPoint
 	out      *GCNF
 	noInline map[string]bool
+	pinning  bool // producing the pinned symbol table: no pinned facts are consulted
 	opts     BuildOpts
 	siteID   map[ssa.Instruction]int
 }
@@ -1313,6 +1314,11 @@ func (s *pstate) inline(callee *ssa.Function, args []*Term) (*Term, bool) {
 	if s.depth >= maxInlineDepth || len(callee.Blocks) == 0 || len(callee.Blocks) > 8 {
 		return nil, false
 	}
+	// a pinned function that was an opaque call at pin time stays one (rules address it as `call:<pinned name>`), whatever
+	// its body looks like now
+	if !s.b.pinning && !s.b.p.Control && s.b.p.KnownFunc(callee) && !loadPinned().inl[s.b.p.FuncKey(callee)] {
+		return nil, false
+	}
 	// expression-like: only pure value instructions, If/Jump, exactly one Return, φs only of the && / || kind
 	var ret *ssa.Return
 	for _, b := range callee.Blocks {
@@ -1412,10 +1418,35 @@ func (s *pstate) inline(callee *ssa.Function, args []*Term) (*Term, bool) {
 	if len(in.effects) > 0 {
 		return nil, false
 	}
+	// a pinned function that now merely forwards to a helper the pinned tree does not know (and which cannot be expanded
+	// as an expression) stays the opaque call it was: rules keep seeing `call:<pinned name>`
+	if s.b.p.KnownFunc(callee) {
+		for _, r := range rs {
+			unknown := false
+			r.any(func(t *Term) bool {
+				if (t.Op == "call" || t.Op == "do") && !pinnedKey(t.Leaf) {
+					unknown = true
+				}
+				return unknown
+			})
+			if unknown {
+				return nil, false
+			}
+		}
+	}
 	if len(rs) == 1 {
 		return rs[0], true
 	}
 	return node("tuple", rs...), true
+}
+
+// pinnedKey: the function key names a function of the pinned tree (or one outside the library).
+func pinnedKey(key string) bool {
+	if i := strings.IndexByte(key, '$'); i >= 0 {
+		key = key[:i]
+	}
+	_, ok := loadPinned().funcs[key]
+	return ok
 }
 
 // ---- guard atoms ----
